@@ -84,6 +84,9 @@ def parse_tlc_output(res, text):
         m = re.search(r"(\d+) states generated, (\d+) distinct states found", line)
         if m:
             res.generated, res.distinct = int(m.group(1)), int(m.group(2))
+        m = re.search(r"The number of states generated: (\d+)", line)
+        if m and not res.generated:
+            res.generated = int(m.group(1))       # -simulate mode
         m = re.search(r"depth of the complete state graph search is (\d+)", line)
         if m:
             res.depth = int(m.group(1))
